@@ -278,16 +278,18 @@ PROPS["C11"] = {
     "unwind_by_harness": [("umad_l1", 4), ("umad_l2", 5)],
     "caps_by_harness": [("_t_umad_", (1500, 14))],
     "weight_by_harness": [("_t_umad_", 2)],
-    "functions": _MUT_FUNCS[:3],
+    "functions": _MUT_FUNCS[:3] + ["MIR engine bin/mirumad (z3): Umad::{new,new_with_empty_rate,new_without_empty}, <Umad as Mutator<G>>::mutate, its closures, Umad::new_gene"],
+    "mirumad": {"quick": 4, "thorough": 6, "labels": ["U1", "U2", "U3"]},
     "bounds": {
         "quick": "every random stream; bit-flip (Vec<bool> and Bitstring flavours) on genomes of length 0,1,3 / 0,2,4 with symbolic genes and a symbolic f32 rate in [0,2]: "
                  "length preserved, one draw per gene, rate 0 identity, rate >= 1 everything flipped; UMAD on Vector<u8> with position-tagged parents of length 0,1,2, "
                  "a probe gene generator (tags 100,101,.. in generation order) and rates from {0,1/2,1} (9 instances incl. the three empty-genome modes): surviving parent genes in order, "
-                 "new genes are generator outputs in order, at most one insertion per parent position, empty parent <= 1 gene (0 when disabled), degenerate-rate clauses",
-        "thorough": "as quick plus bit-flip lengths 2,4 / 1,3,6 and UMAD on one-gene parents with (add,del) in {(1/2,1/2),(0,0),(1,0),(1/2,1)}",
+                 "new genes are generator outputs in order, at most one insertion per parent position, empty parent <= 1 gene (0 when disabled), degenerate-rate clauses. MIR engine (z3, nonlinear real arithmetic): Umad::mutate and the three constructors executed from MIR on parents of L <= 4 tagged genes with SYMBOLIC REAL rates a, d, e in [0,1] (random_bool(p) = fork weighted p / 1-p, path probability = product): child structure (U1), the exact sequence of draws (U3), the probability of EVERY possible child equals the prescribed law for all rates (U2: each gene deleted with probability d and followed by a new gene with probability a(1-d), independently; empty parent: e, = a for `new`, none without empty rate), and expected size preserved under d(1+a) = a (U4)",
+        "thorough": "as quick plus bit-flip lengths 2,4 / 1,3,6 and UMAD on one-gene parents with (add,del) in {(1/2,1/2),(0,0),(1,0),(1/2,1)}. MIR engine (z3, nonlinear real arithmetic): Umad::mutate and the three constructors executed from MIR on parents of L <= 6 tagged genes with SYMBOLIC REAL rates a, d, e in [0,1] (random_bool(p) = fork weighted p / 1-p, path probability = product): child structure (U1), the exact sequence of draws (U3), the probability of EVERY possible child equals the prescribed law for all rates (U2: each gene deleted with probability d and followed by a new gene with probability a(1-d), independently; empty parent: e, = a for `new`, none without empty rate), and expected size preserved under d(1+a) = a (U4)",
     },
-    "outside": "UMAD on parents longer than 1 (measured: 14 GB exhausted after 16 min for 2 genes) and with symbolic rates; UMAD on Plushy / Bitstring genomes (same generic code, other element types); bit vectors longer than 6",
-    "assumptions": ["rand 0.9.0 sampling algorithms run unmodified on the symbolic generator"],
+    "outside": "UMAD on parents longer than 1 UNDER KANI (measured: 14 GB exhausted after 16 min for 2 genes) - decided on the MIR instead, where Rng::random_bool, Distribution::sample and the std iterator adaptors are contract models; UMAD on Plushy / Bitstring genomes (same generic code, other element types); bit vectors longer than 6",
+    "assumptions": ["rand 0.9.0 sampling algorithms run unmodified on the symbolic generator",
+                    "bin/mirumad: rustc MIR is the semantics of the source; callee models: Rng::random_bool(p) = true with probability p, Distribution::sample = a fresh gene, into_iter/flat_map/flatten/collect = the closure's MIR once per gene in order, bool::then/then_some, Option::into_iter().collect(), Linear::size; unknown statements / callees are inconclusive (exit 2)"],
 }
 PROPS["C12"] = {
     "features": ["c11"],
@@ -296,19 +298,21 @@ PROPS["C12"] = {
     "unwind_by_harness": [("umad_l1", 4), ("umad_l2", 5)],
     "caps_by_harness": [("_t_umad_", (1500, 14))],
     "weight_by_harness": [("_t_umad_", 2)],
-    "functions": _MUT_FUNCS,
+    "functions": _MUT_FUNCS + ["MIR engine bin/mirumad (z3): Umad::{new,new_with_empty_rate,new_without_empty}, <Umad as Mutator<G>>::mutate, its closures, Umad::new_gene"],
+    "mirumad": {"quick": 4, "thorough": 6, "labels": ["U2", "U3", "U4"]},
     "bounds": {
         "quick": "measure characterisation, for ALL random words and a SYMBOLIC rate: WithRate flips gene i iff (w_i >> 8) < ceil(rate*2^24) (its own word only; probability within 2^-24 of the rate), "
                  "lengths 0..=4; WithOneOverLength the same with rate 1/L and L*threshold = 2^24 +- L (one expected flip); UMAD child == reference built from the same words (add coin, delete coin, "
                  "delete-new coin only after an addition, generator call only for surviving additions: new genes are subject to deletion with the deletion rate) on empty parents (quick) and "
                  "one-gene parents with rates from {0,1/2,1} (thorough); coin(p) = word < floor(p*2^64), p = 1 without a draw; uniform crossover is decided under C10 (top bit of word i); Bitstring::random "
                  "bit i = top bit of word i; random_with_probability / BoolGenerator = coin(p) with symbolic p; Plushy gene: close iff (w >> 8) < ceil(p*2^24) else exactly one sample of the "
-                 "instruction distribution, default p = 1/(n+1) for a symbolic n <= 2^24",
-        "thorough": "as quick plus the thorough bit-flip lengths and UMAD on one-gene parents, 4 rate pairs",
+                 "instruction distribution, default p = 1/(n+1) for a symbolic n <= 2^24. MIR engine (z3, nonlinear real arithmetic): Umad::mutate and the three constructors executed from MIR on parents of L <= 4 tagged genes with SYMBOLIC REAL rates a, d, e in [0,1] (random_bool(p) = fork weighted p / 1-p, path probability = product): child structure (U1), the exact sequence of draws (U3), the probability of EVERY possible child equals the prescribed law for all rates (U2: each gene deleted with probability d and followed by a new gene with probability a(1-d), independently; empty parent: e, = a for `new`, none without empty rate), and expected size preserved under d(1+a) = a (U4)",
+        "thorough": "as quick plus the thorough bit-flip lengths and UMAD on one-gene parents, 4 rate pairs. MIR engine (z3, nonlinear real arithmetic): Umad::mutate and the three constructors executed from MIR on parents of L <= 6 tagged genes with SYMBOLIC REAL rates a, d, e in [0,1] (random_bool(p) = fork weighted p / 1-p, path probability = product): child structure (U1), the exact sequence of draws (U3), the probability of EVERY possible child equals the prescribed law for all rates (U2: each gene deleted with probability d and followed by a new gene with probability a(1-d), independently; empty parent: e, = a for `new`, none without empty rate), and expected size preserved under d(1+a) = a (U4)",
     },
-    "outside": "'expected size preserved when deletion = addition/(1+addition)' is the arithmetic corollary of the verified draw protocol (not re-proved); UMAD with parents longer than 1 gene or symbolic rates (solver budget); "
+    "outside": "UMAD with parents longer than 1 gene or symbolic rates under Kani (solver budget) - decided on the MIR instead, incl. 'expected size preserved when deletion = addition/(1+addition)' (U4); that random_bool(p) is true with probability exactly p is rand's contract at the MIR level (the Kani harnesses tie it to the 64-bit word); "
                "the definition of a uniform variate is rand 0.9.0's StandardUniform/Bernoulli algorithms (version guard on Cargo.lock)",
-    "assumptions": ["distinct random words are independent and uniform (the measure of {w : w < t} is t/2^k)"],
+    "assumptions": ["distinct random words are independent and uniform (the measure of {w : w < t} is t/2^k)",
+                    "bin/mirumad: rustc MIR is the semantics of the source; callee models: Rng::random_bool(p) = true with probability p (successive draws independent), Distribution::sample = a fresh gene, into_iter/flat_map/flatten/collect = the closure's MIR once per gene in order; unknown statements / callees are inconclusive (exit 2)"],
 }
 
 PROPS["C13"] = {
